@@ -107,4 +107,55 @@ def judgeStart {N V : Type} [DecidableEq V] (parse : Bytes → Option (JV N)) (i
     expectedStart o.given o.init
       (storedValue parse imp (fun n => obs.any (fun q => q.name == n && q.persistent)) file o.name)))).map (·.name)
 
+/-! ## reloading in a running module (`loadParameters()`, the reaction to a power cycle of the hardware)
+
+The two clauses "loading after saving restores every persistent parameter … to an equal value" and "values given in
+the configuration take precedence over stored ones" also bind the second loader of the code.  They are stated over
+what can be observed of one run of a module: the file when `loadParameters()` is called, the value of every parameter
+before and after the call, and the values it has had since the end of start-up. -/
+
+/-- one parameter as observed at a reload -/
+structure ReloadObs (V : Type) where
+  name : String
+  persistent : Bool
+  hasWrite : Bool         -- a loaded value goes to the hardware through `write_<name>`, which may refuse it
+  before : V              -- value when `loadParameters()` was called
+  held : List V           -- every value the parameter has had in this run: at the end of start-up and after each later action
+  actual : V              -- value after the call
+
+/-- what a reload must make of one parameter: a usable stored value is restored — unless the write path to the
+hardware refuses it (`wval = none`), then the parameter keeps its value.  An unusable or missing entry gives the
+parameter nothing (what else may happen to it then — a pending write of a configured value, say — is not a matter of
+persistence; `ReloadFromThisRun` still binds the value). -/
+def ReloadedTo {V : Type} (wval : String → V → Option V) (o : ReloadObs V) (stored : Option V) : Prop :=
+  match stored with
+  | some v => o.actual = v ∨ (o.hasWrite = true ∧ wval o.name v = none ∧ o.actual = o.before)
+  | none => True
+
+instance {V : Type} [DecidableEq V] (wval : String → V → Option V) (o : ReloadObs V) (stored : Option V) :
+    Decidable (ReloadedTo wval o stored) := by
+  unfold ReloadedTo; split <;> infer_instance
+
+/-- "loading restores every persistent parameter to an equal value; unusable entries are ignored individually" -/
+def ReloadRestores {N V : Type} (parse : Bytes → Option (JV N)) (imp : String → JV N → Option V)
+    (wval : String → V → Option V) (file : Option Bytes) (obs : List (ReloadObs V)) : Prop :=
+  ∀ o ∈ obs, o.persistent = true →
+    ReloadedTo wval o (storedValue parse imp (fun n => obs.any (fun q => q.name == n && q.persistent)) file o.name)
+
+/-- "values given in the configuration take precedence over stored ones", for the whole run: what start-up decided
+(configured value, else stored value, else default) is the first element of `held`; a reload may bring back a value
+of this run, never one that only a previous run had stored -/
+def ReloadFromThisRun {V : Type} (obs : List (ReloadObs V)) : Prop :=
+  ∀ o ∈ obs, o.persistent = true → o.actual ∈ o.held
+
+/-- monitor: names of the persistent parameters a reload did not restore as prescribed -/
+def judgeReloadRestores {N V : Type} [DecidableEq V] (parse : Bytes → Option (JV N)) (imp : String → JV N → Option V)
+    (wval : String → V → Option V) (file : Option Bytes) (obs : List (ReloadObs V)) : List String :=
+  (obs.filter (fun o => o.persistent && !decide (ReloadedTo wval o
+    (storedValue parse imp (fun n => obs.any (fun q => q.name == n && q.persistent)) file o.name)))).map (·.name)
+
+/-- monitor: names of the persistent parameters to which a reload gave a value they never had in this run -/
+def judgeReloadFromThisRun {V : Type} [DecidableEq V] (obs : List (ReloadObs V)) : List String :=
+  (obs.filter (fun o => o.persistent && !decide (o.actual ∈ o.held))).map (·.name)
+
 end Frappy.Spec.C17
